@@ -44,6 +44,29 @@ Theorem c04_jwt_history : forall jwt_at : Z -> N -> N -> jverdict, (forall jt, l
 Proof. exact jwt_history. Qed.
 Print Assumptions c04_jwt_history.
 
+(* the chain the engine builds from the public route options (api.WithJwt / api.WithJwtTransition, engine.appendAuthHandler):
+   with a current secret of at least 8 bytes the handler runs iff the token verifies under the current secret, or the previous
+   secret is non-empty and it verifies under that one -- for EVERY length of the previous secret (1..7 bytes included; the
+   previous secret is not validated), and WithJwt alone = no previous secret *)
+Theorem c04_jwt_engine_options : forall jwt_parse, lib_contract jwt_parse ->
+  forall secret len prev prev_len now p tok, 8 <= len ->
+  jwt_setting (JTransition secret len prev prev_len) = Some (true, secret, prev) /\
+  jwt_setting (JJwt secret len) = Some (true, secret, 0%N) /\
+  (j_ran (snd (engine_jwt_gate jwt_parse (true, secret, prev) now p tok)) = true <->
+   jwt_ok jwt_parse secret tok = true \/ (prev <> 0%N /\ jwt_ok jwt_parse prev tok = true)) /\
+  (j_ran (snd (engine_jwt_gate jwt_parse (true, secret, 0%N) now p tok)) = true <-> jwt_ok jwt_parse secret tok = true).
+Proof.
+  intros jwt_parse L secret len prev prev_len now p tok H.
+  pose proof (jwt_setting_transition secret len prev prev_len H) as S1.
+  pose proof (jwt_setting_jwt secret len H) as S2.
+  pose proof (engine_jwt_iff jwt_parse L _ secret prev now p tok S1) as E1.
+  pose proof (engine_jwt_iff jwt_parse L _ secret 0%N now p tok S2) as E2.
+  split; [exact S1|]. split; [exact S2|]. split.
+  - rewrite E1. exact (jwt_accept_prop jwt_parse _ _ _ _).
+  - rewrite E2, (jwt_accept_prop jwt_parse). split; [intros [H1|[H1 _]]; [assumption|congruence] | auto].
+Qed.
+Print Assumptions c04_jwt_engine_options.
+
 (* an accepted request answers 200 from the handler, whose context holds exactly the token's
    non-registered claims *)
 Theorem c04_claims_visible : forall jwt_parse cb now p secret prev tok,
@@ -285,6 +308,15 @@ Theorem c04_rpc_strict_sound : forall steps cache past i store md app token,
   exists st, In st (past ++ map fst (firstn (S i) steps)) /\ st app = SVal token.
 Proof. exact rpc_strict_sound. Qed.
 Print Assumptions c04_rpc_strict_sound.
+
+(* "not found" leaves no trace: any number of calls for apps that are not cached and have no stored token (healthy store)
+   are each answered Internal (strict) / OK (lax) and later verdicts are exactly what they would have been without them *)
+Theorem c04_rpc_not_found_no_memory : forall strict steps later cache,
+  (forall sm, In sm steps -> unknown_app_call cache sm) ->
+  run_rpc strict cache (steps ++ later) =
+  map (fun _ => if strict then rpc_internal else rpc_ok) steps ++ run_rpc strict cache later.
+Proof. exact unknown_apps_no_effect. Qed.
+Print Assumptions c04_rpc_not_found_no_memory.
 
 (* the interceptors: neither the method name nor unary/stream enters the decision, and the handler runs iff the
    call is accepted (code OK) *)
